@@ -167,37 +167,62 @@ var reviewedBounds = []reviewed{
 			return false, "the len(scratch) < scratchLen guard on the re-allocation is gone"
 		}},
 	{fn: "s3mem.(*versionGenerator).Next", check: "IsInBounds", base: "slice-of(phi(make:[]byte,param#1:[]byte))",
-		why: "b = scratch[len(idb)+1:] has at least neat bytes, neat is a multiple of 8 and the loop steps i by 8 below neat",
-		premise: func(r *core.Run, ctx *oblig.Ctx, s *oblig.Site) (bool, string) {
-			// index = i + k, 0 <= k <= 7, i a loop variable stepped by 8 under i < neat
-			ia := s.Instr.(*ssa.IndexAddr)
-			idx := ia.Index
-			k := int64(0)
-			if bo, ok := idx.(*ssa.BinOp); ok && bo.Op == token.ADD {
-				if kk, ok := core.ConstInt(bo.Y); ok {
-					idx, k = bo.X, kk
+		why:     "b = scratch[len(idb)+1:] has at least neat bytes, neat is a multiple of 8 and the loop steps i by 8 below neat",
+		premise: premiseStep8},
+	{fn: "s3mem.(*versionGenerator).Next", check: "IsSliceInBounds", base: "slice-of(phi(make:[]byte,param#1:[]byte))",
+		why:     "b[i:i+8] with b = scratch[len(idb)+1:] of at least neat bytes, neat a multiple of 8, i stepping by 8 below neat",
+		premise: premiseStep8},
+}
+
+// premiseStep8: every index/bound of the site is i + k with 0 <= k <= 8 and i a
+// loop variable stepped by 8.
+func premiseStep8(r *core.Run, ctx *oblig.Ctx, s *oblig.Site) (bool, string) {
+	var bounds []ssa.Value
+	switch x := s.Instr.(type) {
+	case *ssa.IndexAddr:
+		bounds = append(bounds, x.Index)
+	case *ssa.Slice:
+		if x.Low != nil {
+			bounds = append(bounds, x.Low)
+		}
+		if x.High != nil {
+			bounds = append(bounds, x.High)
+		}
+	}
+	if len(bounds) == 0 {
+		return false, "no index operand"
+	}
+	for _, idx := range bounds {
+		k := int64(0)
+		if bo, ok := idx.(*ssa.BinOp); ok && bo.Op == token.ADD {
+			if kk, ok := core.ConstInt(bo.Y); ok {
+				idx, k = bo.X, kk
+			}
+		}
+		maxK := int64(7)
+		if _, isSlice := s.Instr.(*ssa.Slice); isSlice {
+			maxK = 8
+		}
+		if k < 0 || k > maxK {
+			return false, "byte offset outside 0.." + sprintf("%d", maxK)
+		}
+		ph, ok := idx.(*ssa.Phi)
+		if !ok {
+			return false, "index is not the loop variable (+ constant)"
+		}
+		step8 := false
+		for _, e := range ph.Edges {
+			if bo, ok := e.(*ssa.BinOp); ok && bo.Op == token.ADD && bo.X == ssa.Value(ph) {
+				if kk, ok := core.ConstInt(bo.Y); ok && kk == 8 {
+					step8 = true
 				}
 			}
-			if k < 0 || k > 7 {
-				return false, "byte offset outside 0..7"
-			}
-			ph, ok := idx.(*ssa.Phi)
-			if !ok {
-				return false, "index is not the loop variable"
-			}
-			step8 := false
-			for _, e := range ph.Edges {
-				if bo, ok := e.(*ssa.BinOp); ok && bo.Op == token.ADD && bo.X == ssa.Value(ph) {
-					if kk, ok := core.ConstInt(bo.Y); ok && kk == 8 {
-						step8 = true
-					}
-				}
-			}
-			if !step8 {
-				return false, "loop variable is not stepped by 8"
-			}
-			return true, ""
-		}},
+		}
+		if !step8 {
+			return false, "loop variable is not stepped by 8"
+		}
+	}
+	return true, ""
 }
 
 func isLenCall(v ssa.Value) bool {
@@ -1184,7 +1209,7 @@ func rule094(r *core.Run, ctx *oblig.Ctx, undischarged map[*ssa.Function][]strin
 			switch x := in.(type) {
 			case ssa.CallInstruction:
 				name := r.P.CalleeName(x)
-				if wedgeSafeCalls[name] || strings.HasPrefix(name, "builtin:") {
+				if wedgeSafeCalls[name] || strings.HasPrefix(name, "builtin:") || wedgeSafePkg(name) {
 					return
 				}
 				bad = append(bad, "call "+name+" at "+pos(r, in))
@@ -1207,6 +1232,18 @@ func rule094(r *core.Run, ctx *oblig.Ctx, undischarged map[*ssa.Function][]strin
 	if n == 0 {
 		r.Info("R09.4", "none", "", "no lock is released by explicit unlock")
 	}
+}
+
+// wedgeSafePkg: functions of pure standard-library packages whose only panics
+// are bounds panics on their slice arguments — those are separate, discharged
+// obligations of the caller.
+func wedgeSafePkg(name string) bool {
+	for _, p := range []string{"(encoding/binary.", "encoding/binary.", "math/bits.", "strconv.", "(*math/big.Int).", "encoding/hex.", "(*encoding/base32.Encoding).", "(*encoding/base64.Encoding).", "fmt.Sprint", "strings.", "bytes."} {
+		if strings.HasPrefix(name, p) {
+			return true
+		}
+	}
+	return false
 }
 
 // calls that cannot panic for any argument (short total-function table)
